@@ -376,9 +376,10 @@ GENERATORS = [gen_delete_increments, gen_drop_copies, gen_shift_slots, gen_dt_fr
               gen_block_perms, gen_local_step_axes, gen_benign_renames, gen_benign_copies]
 
 
-def all_variants(sources, only_props=None):
+def all_variants(sources, only_props=None, rename_every=3):
     out = []
-    for g in GENERATORS:
+    gens = list(GENERATORS) + [lambda src: gen_rename_locals(src, every=rename_every)]
+    for g in gens:
         for v in g(sources):
             if only_props is not None:
                 v.props = [p for p in v.props if p in only_props]
